@@ -25,6 +25,7 @@ def run(chk):
     )
     chk.not_decided = "range / suffix / If-Range arithmetic and 206/416 consistency (integer reasoning: solver family); actual file-system semantics of resolve()."
     chk.explanation += " After the defect hunt: entity-tags in If-Range are compared; `bytes=-0` selects nothing; the index of a directory behind a symlink is built from the unresolved path; OSError while examining a path is a 404."
+    chk.explanation += " Second hunt: a 206 slice is never content-coded on the fly; the index page is encoded leniently. Known: an If-Range date is compared with <= instead of == (F103)."
     rp = repo.func(MOD, "StaticResource._resolve_path_to_response")
     g = cfg_of(rp.node)
     # ---- sandbox -------------------------------------------------------------------------------------------
